@@ -3,7 +3,8 @@
 From Coq Require Import List ZArith Bool.
 From Verif Require Import lib.Wire gen.Consts_c11 c11.Model c11.Spec c11.Proofs c11.Proofs_Cnt c11.Proofs_Caps c11.Proofs_Life
   c11.Proofs_Circ c11.Proofs_Rsv c11.Proofs_Mon.
-From Verif Require c08.SymCrypto c08.Model c08.Proofs c08.Proofs_Env c11.ClientModel c11.SpecClient c11.Proofs_Client.
+From Verif Require c08.Varint c08.SymCrypto c08.Model c08.Proofs c08.Proofs_Env c11.ClientModel c11.SpecClient c11.Proofs_Client
+  c11.VoucherModel c11.Proofs_Voucher.
 Import ListNotations.
 Local Open Scope Z_scope.
 
@@ -123,28 +124,56 @@ Theorem c11_limits : forall c ops, wf c ->
 Proof. exact limits_l. Qed.
 Print Assumptions c11_limits.
 
-(* 8. the answer to a granted RESERVE names the relay as signer and issuer and exactly
-   the reserving peer (signature and envelope are checked on the real code by the
-   harness on every grant: crypto enters by the correspondence only) *)
-Theorem c11_voucher_fields_partial : forall c s p k acl inj s' obs,
-  handle_reserve c s p k acl inj = (s', obs) -> nth 0 obs 0 = ST_OK ->
-  nth 1 obs 0 = 1 /\ nth 3 obs 0 = 1 /\ nth 4 obs 0 = 1 /\ nth 5 obs 0 = p.
-Proof.
-  intros c s p k acl inj s' obs H Hok. unfold handle_reserve in H.
-  destruct (negb (s_link s p k) || s_closed s); [inversion H; subst; discriminate Hok|].
-  destruct (negb (mem_ok_always c (s_mem s) maxMessageSize)); [inversion H; subst; discriminate Hok|].
-  destruct (a_relayed (addr_of c p k)); [inversion H; subst; discriminate Hok|].
-  cbv zeta in H. destruct (inj =? 2).
-  - destruct (negb acl); [inversion H; subst; discriminate Hok|].
-    destruct (negb (connected _ p)); [inversion H; subst; discriminate Hok|].
-    destruct (c_reserve c _ p _ _ _) as [s2 ok]. destruct (negb ok); inversion H; subst; [discriminate Hok|].
-    cbn. repeat split; reflexivity.
-  - destruct (negb acl); [inversion H; subst; discriminate Hok|].
-    destruct (negb (connected s p)); [inversion H; subst; discriminate Hok|].
-    destruct (c_reserve c s p _ _ _) as [s2 ok]. destruct (negb ok); inversion H; subst; [discriminate Hok|].
-    cbn. repeat split; reflexivity.
-Qed.
-Print Assumptions c11_voucher_fields_partial.
+(* 8. the voucher of a granted RESERVE, at byte level (C08's Varint/Protobuf/envelope library)
+   and for every IDEAL signature scheme (c08.SymCrypto Part 1: verify k m s <-> origin s = (k,m),
+   signing issues a value for exactly (key, message)), every key marshalling the unmarshallers
+   read back, and peer IDs that are multihashes:  the blob the relay model puts into its answer is
+   an envelope SEALED BY THE RELAY'S KEY over proto.RecordDomain ("libp2p-relay-rsvp") and
+   proto.RecordCodec whose payload decodes to exactly (relay = this relay's ID, peer = the reserving
+   peer's ID, expiration = the reservation's expiry in unix seconds); the reserving peer's
+   client.Reserve accepts it with those fields; and ANY envelope a client accepts that carries the
+   signature issued for this reservation has exactly those fields (and that client is the reserving
+   peer, the signer the relay).  0 <= e holds for every history (c11_expired_collected, clock >= 0);
+   e/1000 < 2^64 is the uint64 range of the wire field.  The harness still checks the real
+   crypto (record.ConsumeEnvelope, signer = relay key) on every grant. *)
+Local Notation bytes := c08.Model.bytes.
+Theorem c11_voucher_sealed :
+  forall (K : Type) (sign : K -> bytes -> bytes) (key_type : K -> N) (key_data id_of : K -> bytes)
+         (key_dec : N -> bytes -> option K) (verify : K -> bytes -> bytes -> bool)
+         (origin : bytes -> option (K * bytes)),
+  (forall k m s, verify k m s = true <-> origin s = Some (k, m)) ->
+  (forall k m, origin (sign k m) = Some (k, m)) ->
+  (forall k m, (c08.Varint.nlen (sign k m) < 2 ^ 64)%N) ->
+  (forall k, c08.Model.key_type_ok (key_type k) = true /\ key_dec (key_type k) (key_data k) = Some k /\
+             (key_type k < 2 ^ 32)%N /\ (c08.Varint.nlen (key_data k) < 2 ^ 63)%N) ->
+  (forall k, Proofs_Voucher.id_ok (id_of k)) ->
+  forall (rk : K) (peer_id : Z -> bytes), (forall p, Proofs_Voucher.id_ok (peer_id p)) ->
+  forall c s p k acl inj s' obs,
+    handle_reserve c s p k acl inj = (s', obs) -> nth 0 obs 0 = ST_OK ->
+    exists e vb,
+      s_rsvp s' p = Some e /\
+      VoucherModel.issued_voucher K sign key_type key_data id_of rk peer_id obs = Some vb /\
+      (0 <= e -> e / 1000 < 2 ^ 64 ->
+       let E := Z.to_N (e / 1000) in
+       c08.Model.consume K key_dec verify vb ClientModel.RecordDomain =
+         c08.Model.CAccept rk ClientModel.RecordCodec (VoucherModel.voucher_payload K id_of rk (peer_id p) E) /\
+       c08.Model.voucher_fields (VoucherModel.voucher_payload K id_of rk (peer_id p) E) = Some (id_of rk, peer_id p, E) /\
+       ClientModel.check_voucher K key_dec verify id_of VoucherModel.dec_voucher_pb (peer_id p) (Some vb) =
+         ClientModel.VAccept (id_of rk, peer_id p, e / 1000) /\
+       (nth 5 obs 0 = p /\ nth 6 obs 0 = Z.of_N E * 1000) /\
+       forall self b k0 en rel pr ex,
+         c08.Model.unmarshal_envelope K key_dec b = Some (k0, en) ->
+         c08.Model.e_sg en = sign rk (c08.Model.make_unsigned ClientModel.RecordDomain ClientModel.RecordCodec
+                                        (VoucherModel.voucher_payload K id_of rk (peer_id p) E)) ->
+         ClientModel.check_voucher K key_dec verify id_of VoucherModel.dec_voucher_pb self (Some b) = ClientModel.VAccept (rel, pr, ex) ->
+         rel = id_of rk /\ pr = peer_id p /\ ex = e / 1000 /\ self = peer_id p /\ k0 = rk).
+Proof. exact Proofs_Voucher.voucher_of_grant_l. Qed.
+Print Assumptions c11_voucher_sealed.
+
+Theorem c11_expiry_nonneg : forall c ops, wf c ->
+  let s := run c init_st ops in forall p e, s_rsvp s p = Some e -> 0 <= e.
+Proof. exact rsvp_nonneg_l. Qed.
+Print Assumptions c11_expiry_nonneg.
 
 (* 9. CLIENT side (client/reservation.go), for every key decoder, peer-ID derivation, voucher
    decoder and every IDEAL signature scheme (the interface of c08.SymCrypto Part 1, shown
